@@ -1,6 +1,7 @@
 import ColoVerif.Proofs.LegalizeIdem
 import ColoVerif.Proofs.LegalizeIdem2Circuit
 import ColoVerif.Proofs.LegalizeIdem2Twice
+import ColoVerif.Proofs.LegalizeF32
 /-
 C11 — legalization does not move an already legal single-row placement.
 
@@ -279,7 +280,8 @@ theorem idempotence_fails_wide_ordering :
   decide +kernel
 
 /-- A second way out of the property's assumption "the float key is exact", found while proving
-`legalize_idempotent_binary32` (replayed on the real code, corpus/C11/kf2-candidate.json):
+`legalize_idempotent_binary32`: known finding KF-C11-2 (witness corpus/C11/kf2.json, replayed on the real
+code on every run):
 `orderingHeight` is not bounded by `LegalizationParameters::check`.  One row `[0,10]`, the cell at
 x = 4 (width 1) listed before the cell at x = 0 (width 4), `orderingWidth = 1/2`,
 `orderingHeight = 2^30`: in binary32 both keys round to 2^31 (the x and width terms are absorbed), the
@@ -296,6 +298,117 @@ theorem idempotence_binary32_needs_exact_key :
     resultPositions (legalizeExact tallParams tallCircuit) = some [(4, 0), (0, 0)] ∧
     orderKey f32 tallParams.ow tallParams.oy tallParams.oh ⟨1, 2, .ANY, 4, 0, .N⟩
       = orderKey f32 tallParams.ow tallParams.oy tallParams.oh ⟨4, 2, .ANY, 0, 0, .N⟩ := by
+  decide +kernel
+
+/-! ### binary32 rounding, and idempotence outside the KF-C11-2 class -/
+
+/-- **binary32 rounding is monotone** (`f32`: the model's round-to-nearest-even binary32 rounding over
+`Rat`, subnormals included, no overflow). -/
+theorem f32_monotone (x y : Rat) (h : x ≤ y) : f32 x ≤ f32 y := f32_mono h
+
+/-- **binary32 rounding is exact on the integers `|v| ≤ 2^24`** (cell coordinates and widths of the
+property's domain, `|v| < 2^20`, are far inside). -/
+theorem f32_exact_on_integers (v : Int) (hv : -16777216 ≤ v ∧ v ≤ 16777216) : f32 (v : Rat) = (v : Rat) :=
+  f32_exact_int v hv
+
+/-- **binary32 rounding is exact on dyadic rationals with at most 24 significant bits**: `m·2^k`,
+`|m| ≤ 2^24`, down to the subnormal exponent `k ≥ −149`. -/
+theorem f32_exact_on_dyadics (m k : Int) (hm : -16777216 ≤ m ∧ m ≤ 16777216) (hk : -149 ≤ k) :
+    f32 ((m : Rat) * pow2 k) = (m : Rat) * pow2 k :=
+  f32_exact_dyadic m k hm hk
+
+/-- the bounds are tight and the rounding is not the identity: `2^24 + 1` rounds to `2^24` (tie to even),
+`2^24 + 3` to `2^24 + 4`, `1/10` is not a binary32 value, `3·2^−149` is a (subnormal) one, `2^−150`
+rounds to 0 (tie to even) -/
+example : f32 16777217 = 16777216 ∧ f32 16777219 = 16777220 ∧ f32 (1 / 10) ≠ 1 / 10 ∧
+    f32 (3 * pow2 (-149)) = 3 * pow2 (-149) ∧ f32 (pow2 (-150)) = 0 ∧ f32 (-(1 / 3)) = -f32 (1 / 3) := by
+  decide +kernel
+
+/-- **Order preservation in binary32.**  `order_never_inverted_rounded` instantiated with the compiled
+rounding: for `0 ≤ orderingWidth ≤ 1`, two cells of one row with x and width `≤ 2^24` in absolute value,
+the first entirely left of the second, *every* `orderingY` and `orderingHeight` (however large): the
+binary32 key of the left cell never exceeds the key of the right one; the computed order differs from the
+left-to-right order only on an exact tie of the rounded keys with inverted indices.  So under these
+bounds the class of KF-C11-2 consists of index-inverted ties only. -/
+theorem order_never_inverted_binary32 (ww wy wh : Rat) (h0 : 0 ≤ ww) (h1 : ww ≤ 1) (c1 c2 : LCell) (i1 i2 : Nat)
+    (hy : c1.ty = c2.ty) (hh : c1.h = c2.h) (hw1 : 0 < c1.w) (hw2 : 0 < c2.w) (hx : c1.tx + c1.w ≤ c2.tx)
+    (x1 : -16777216 ≤ c1.tx ∧ c1.tx ≤ 16777216) (x2 : -16777216 ≤ c2.tx ∧ c2.tx ≤ 16777216)
+    (w1 : c1.w ≤ 16777216) (w2 : c2.w ≤ 16777216) :
+    keyLt (orderKey f32 ww wy wh c2, i2) (orderKey f32 ww wy wh c1, i1) = true →
+      orderKey f32 ww wy wh c1 = orderKey f32 ww wy wh c2 ∧ i2 < i1 :=
+  order_never_inverted_rounded f32 (fun _ _ h => f32_mono h) f32_zero f32_one ww wy wh h0 h1 c1 c2 i1 i2 hy hh hw1 hw2 hx
+    (f32_exact_int _ x1) (f32_exact_int _ x2) (f32_exact_int _ ⟨by omega, w1⟩) (f32_exact_int _ ⟨by omega, w2⟩)
+
+/-- **The KF-C11-2 classifier is the negation of the order-keeping hypothesis.**  `kf2ClassSeg` is the
+executable classifier the driver runs against the harness' own binary32 computation (op `kf2`): some cell
+entirely left of another one *in the same free segment* has the larger rounded key, or the same key and
+the larger index.  It is false exactly when `KeyOrderSeg` holds, which is all the idempotence proof needs
+of the key (the visiting order of cells of different segments is irrelevant). -/
+theorem kf2_class_iff_not_key_order (rnd : Rat → Rat) (p : Params) (R : List Row) (cells : List LCell) :
+    kf2ClassSeg rnd p R cells = false ↔ KeyOrderSeg rnd p R cells :=
+  kf2ClassSeg_false_iff rnd p R cells
+
+/-- **Idempotence for any key rounding that keeps the left-to-right order inside every free segment**
+(strengthens `legalize_idempotent_any_key`: pairs of cells of different segments need not be ordered). -/
+theorem legalize_idempotent_any_key_seg (rnd : Rat → Rat) (p : Params) (c : Circuit) (hp : p.check = true)
+    (hd : DomC c) (hs : SingleRow c) (hl : LegalC c) (ho : OrientLegal c)
+    (hk : KeyOrderSeg rnd p c.computeRows (movable c)) :
+    legalizeWith rnd p c = .ok c :=
+  legalizeWith_fixed_seg rnd p c hp hd hs hl ho hk
+
+/-- **Idempotence, binary32 key as compiled, outside the class of KF-C11-2.**  `0 ≤ orderingWidth ≤ 1`,
+x and width of the movable cells `≤ 2^24` in absolute value (`SmallCoords`; the property says `< 2^20`),
+every accepted `orderingY`/`orderingHeight`, and no two cells of one free segment, one entirely left of the
+other, whose binary32 keys are *equal* with the left cell having the larger index (`NoInvertedTie`; by
+`order_never_inverted_binary32` this is all that is left of the KF-C11-2 class under these bounds).  Then
+the compiled `legalize` returns the circuit itself.  No exactness of the key is assumed: `f32` is monotone
+and exact on the integer data, so rounding can merge keys but never invert them. -/
+theorem legalize_idempotent_binary32_classified (p : Params) (c : Circuit) (hp : p.check = true)
+    (h0 : 0 ≤ p.ow) (h1 : p.ow ≤ 1) (hd : DomC c) (hs : SingleRow c) (hl : LegalC c) (ho : OrientLegal c)
+    (hsmall : SmallCoords (movable c)) (hnokf : NoInvertedTie p c.computeRows (movable c)) :
+    legalize p c = .ok c :=
+  legalizeWith_fixed_seg f32 p c hp hd hs hl ho (keyOrderSeg_f32_of_noInvertedTie p h0 h1 _ _ hsmall hnokf)
+
+/-- **The same with the executable classifier** `kf2 p c = kf2ClassSeg f32 p c.computeRows (movable c)`
+(whatever `orderingWidth` and the coordinate sizes): a legal single-row placement on which the classifier
+is false is a fixed point of the compiled `legalize`.  For `orderingWidth ∉ [0,1]` (KF-C11-1) the class
+also contains the strict inversions. -/
+theorem legalize_idempotent_binary32_not_kf2 (p : Params) (c : Circuit) (hp : p.check = true)
+    (hd : DomC c) (hs : SingleRow c) (hl : LegalC c) (ho : OrientLegal c) (hk : kf2 p c = false) :
+    legalize p c = .ok c :=
+  legalizeWith_fixed_seg f32 p c hp hd hs hl ho ((kf2ClassSeg_false_iff f32 p _ _).mp hk)
+
+/-- legalizing twice = legalizing once for the compiled key when the first result is outside the class -/
+theorem legalize_twice_binary32_not_kf2 (p : Params) (c c' : Circuit) (hd : DomL c) (hs : SingleRow c)
+    (hfirst : legalize p c = .ok c') (hk : kf2 p c' = false) :
+    legalize p c' = .ok c' :=
+  legalizeWith_twice_seg f32 p c c' hd hs hfirst ((kf2ClassSeg_false_iff f32 p _ _).mp hk)
+
+/-- non-vacuity: the demo circuit (hypotheses `DomC … OrientLegal` shown above) is outside the class, has
+small coordinates and no inverted tie. -/
+example : kf2 demoParams demoCircuit = false ∧ SmallCoords (movable demoCircuit) ∧
+    NoInvertedTie demoParams demoCircuit.computeRows (movable demoCircuit) := by
+  have h : kf2 demoParams demoCircuit = false := by decide +kernel
+  refine ⟨h, by unfold SmallCoords; decide,
+    noInvertedTie_of_keyOrderSeg _ _ _ ((kf2ClassSeg_false_iff f32 _ _ _).mp h)⟩
+
+/-- a row `[0,10]` cut by a fixed obstruction at `[4,6)`, the cell of the right segment listed before the
+cell of the left segment, `orderingHeight = 2^30` -/
+def splitCircuit : Circuit :=
+  ⟨[⟨2, 2, 4, 0, .N, true, true, .ANY⟩, ⟨2, 2, 7, 0, .N, false, false, .ANY⟩, ⟨2, 2, 1, 0, .N, false, false, .ANY⟩],
+   [], [⟨⟨0, 10, 0, 2⟩, .N⟩]⟩
+
+/-- The class on the witnesses.  The KF-C11-2 witness is inside the class for the binary32 key and outside
+for the exact key; with the same `orderingHeight = 2^30` and the cells listed left to right the keys still
+tie but the index order agrees: outside the class, and stable.  On `splitCircuit` the keys tie and the
+indices are inverted, but the two cells sit in different free segments: inside the row-wide class
+`kf2Class`, outside the classifier `kf2`, and the compiled `legalize` moves nothing. -/
+theorem kf2_witness_in_class :
+    kf2 tallParams tallCircuit = true ∧ kf2ClassSeg id tallParams tallCircuit.computeRows (movable tallCircuit) = false ∧
+    kf2 tallParams ⟨tallCircuit.cells.reverse, [], tallCircuit.rows⟩ = false ∧
+    resultPositions (legalize tallParams ⟨tallCircuit.cells.reverse, [], tallCircuit.rows⟩) = some [(0, 0), (4, 0)] ∧
+    kf2Class f32 tallParams (movable splitCircuit) = true ∧ kf2 tallParams splitCircuit = false ∧
+    resultPositions (legalize tallParams splitCircuit) = some (positions splitCircuit) := by
   decide +kernel
 
 end ColoVerif.C11
